@@ -256,10 +256,10 @@ class OutputFiles:
             raise ValueError("Expected one or two paths")
         if interleaved and len(paths) != 1:
             raise ValueError("Cannot write to two files when interleaved is True")
-        if len(paths) == 1 and paths[0] == "-" and force_fasta:
-            kwargs["fileformat"] = "fasta"
         if paths == (None,):
             paths = ("-",)
+        if len(paths) == 1 and paths[0] == "-" and force_fasta:
+            kwargs["fileformat"] = "fasta"
         for path in paths:
             assert path is not None
         if "fileformat" not in kwargs:
